@@ -1,5 +1,5 @@
 //@ assume: std::fs::File, memmap::Mmap, PathBuf are external (opaque) types; nothing about file contents is verified -- only the in-memory bookkeeping (buffer, buffer_start_pos, buffer_start_pos_bak) that decides what a later flush/read sees
-//@ assume: the variable-size path (the nested size file) is abstracted: the three `if let SizeInfo::VariableSize(ref mut size_file)` blocks are replaced (T6) by calls to external_body helpers that may only change `size_info`; its own rewind/discard are the same code instantiated at T = SizeEntry
+//@ assume: the variable-size path (the nested size file) is abstracted: the three `if let SizeInfo::VariableSize(ref mut size_file)` blocks are replaced (T6) by calls to external_body helpers that change only `size_info` (to an uninterpreted function of its old value: 'the size file was rewound to pos' / 'was discarded'); its own rewind/discard are the same code instantiated at T = SizeEntry
 //@ assume: 'flushed' (number of elements on disk) is the ghost reading: buffer_start_pos_bak if non-zero, else buffer_start_pos -- the value AppendOnlyFile::flush/init establish
 //@ assume: chain-level rollback (txhashset::extending, Batch drop, process_block failure paths) is a history property through LMDB and closures and is NOT decided here (DESIGN 6 C06)
 //@ assume: 64-bit target (usize is 8 bytes)
@@ -32,6 +32,9 @@ pub enum SizeInfo {
 //@   pub_fields
 //@ end
 
+/// what rewinding / discarding the nested size file (a no-op for fixed-size data) does to size_info
+pub uninterp spec fn sp_sf_rewound(s: SizeInfo, pos: u64) -> SizeInfo;
+pub uninterp spec fn sp_sf_discarded(s: SizeInfo) -> SizeInfo;
 impl<T> AppendOnlyFile<T> {
     /// elements on disk after the last flush (ghost reading of the two position fields)
     pub open spec fn flushed(&self) -> nat {
@@ -42,12 +45,12 @@ impl<T> AppendOnlyFile<T> {
     #[verifier::external_body]
     fn size_file_rewind(&mut self, pos: u64)
         ensures final(self).buffer == old(self).buffer, final(self).buffer_start_pos == old(self).buffer_start_pos,
-                final(self).buffer_start_pos_bak == old(self).buffer_start_pos_bak,
+                final(self).buffer_start_pos_bak == old(self).buffer_start_pos_bak, final(self).size_info == sp_sf_rewound(old(self).size_info, pos),
     { unimplemented!() }
     #[verifier::external_body]
     fn size_file_discard(&mut self)
         ensures final(self).buffer == old(self).buffer, final(self).buffer_start_pos == old(self).buffer_start_pos,
-                final(self).buffer_start_pos_bak == old(self).buffer_start_pos_bak,
+                final(self).buffer_start_pos_bak == old(self).buffer_start_pos_bak, final(self).size_info == sp_sf_discarded(old(self).size_info),
     { unimplemented!() }
 
 //@ extract store/src/types.rs :: impl AppendOnlyFile::rewind
@@ -58,6 +61,7 @@ impl<T> AppendOnlyFile<T> {
 //@+    final(self).buffer_start_pos == pos,
 //@+    final(self).buffer == old(self).buffer,
 //@+    final(self).flushed() == old(self).flushed(),
+//@+    final(self).size_info == sp_sf_rewound(old(self).size_info, pos),
 //@ end
 
 //@ extract store/src/types.rs :: impl AppendOnlyFile::discard
@@ -68,6 +72,9 @@ impl<T> AppendOnlyFile<T> {
 //@+    final(self).buffer_start_pos_bak == 0,
 //@+    final(self).buffer@.len() == 0,
 //@+    final(self).flushed() == old(self).flushed(),
+//@+    // the nested size file of variable-size data is discarded along with the data file, ALWAYS (it can hold
+//@+    // appended entries although the data file itself was not rewound)
+//@+    final(self).size_info == sp_sf_discarded(old(self).size_info),
 //@ end
 
 //@ extract store/src/types.rs :: impl AppendOnlyFile::read_from_buffer
